@@ -125,6 +125,10 @@ def build_case(ctx, rng, ci):
         # arguments may themselves be expressions
         args = [a if rng.random() < 0.7 else a * 2 + 1 for a in args]
         pos, kw = args[:npos], {kwnames[i]: args[i] for i in range(npos, nparams)}
+        # keyword arguments are written in any order, not only alphabetically
+        kwi = list(kw.items())
+        rng.shuffle(kwi)
+        kw = dict(kwi)
 
         f = body
         d = f(*pos, **kw)
